@@ -102,6 +102,7 @@ def run_shard(ctx: Ctx, acc: Acc):
         bad = None
         length = r.choice([5, 10, 20, 40, 60])
         final_done = set()
+        undrained = {"c": False, "s": False}
         for _ in range(length):
             if mode == "pending" and r.random() < 0.3:
                 side = r.choice("cs")
@@ -113,9 +114,15 @@ def run_shard(ctx: Ctx, acc: Acc):
                     mid = r.choice(sorted(final_done))
                     action = r.choice([("done", mid, 0, None, None, None), ("extended_response", mid, None, None, 0, None, None, None), ("bind_response", mid, None, 0, None, None, None)])
             drv = pair.c if side == "c" else pair.s
-            pend = drv._pending_len() or 0
+            # "bytes pending" from public observation: an accepted send since the last drain that asked for everything
+            pend = 1 if undrained.get(side) else 0
             ip_before = set(drv.model.ip)
             vio = pair.do(side, action)
+            if action[0] == "drain":
+                if action[1] is None or action[1] >= 10**9:
+                    undrained[side] = False
+            elif action[0] != "receive" and drv.trace and drv.trace[-1].get("outcome") == "ok" and mode == "pending":
+                undrained[side] = True
             if drv.trace and drv.trace[-1].get("op") not in ("drain",):
                 drv.trace[-1]["pending_before"] = pend
                 ev = drv.trace[-1]
